@@ -876,3 +876,58 @@ func EmitChunks(t *rapid.T, out *[]ev.Event, at events.ArrayType, count uint64, 
 		}
 	}
 }
+
+// Rechunk re-delivers every whole array of evs through a random form (whole, string-like, or chunked
+// with random chunk / data-event boundaries). Non-array events are copied.
+func Rechunk(t *rapid.T, evs []ev.Event, midChar, midElem bool) []ev.Event {
+	out := make([]ev.Event, 0, len(evs)+8)
+	for _, e := range evs {
+		switch e.K {
+		case ev.Array, ev.StringArray:
+			data := e.Bs
+			count := e.U
+			if e.K == ev.StringArray {
+				data = []byte(e.S)
+				count = uint64(len(data))
+			}
+			str := isStringy(e.AT)
+			switch rapid.IntRange(0, 3).Draw(t, "re.form") {
+			case 0:
+				out = append(out, ev.Event{K: ev.Array, AT: e.AT, U: count, Bs: data})
+			case 1:
+				if str {
+					out = append(out, ev.Event{K: ev.StringArray, AT: e.AT, S: string(data)})
+				} else {
+					out = append(out, ev.Event{K: ev.Array, AT: e.AT, U: count, Bs: data})
+				}
+			default:
+				out = append(out, ev.Event{K: ev.ArrayBegin, AT: e.AT})
+				EmitChunks(t, &out, e.AT, count, data, str, midChar, midElem)
+			}
+		case ev.Media:
+			if rapid.Bool().Draw(t, "re.media") {
+				out = append(out, e)
+			} else {
+				out = append(out, ev.Event{K: ev.MediaBegin, S: e.S})
+				EmitChunks(t, &out, events.ArrayTypeUint8, uint64(len(e.Bs)), e.Bs, false, midChar, midElem)
+			}
+		case ev.CustomBinary:
+			if rapid.Bool().Draw(t, "re.cb") {
+				out = append(out, e)
+			} else {
+				out = append(out, ev.Event{K: ev.CustomBegin, AT: events.ArrayTypeCustomBinary, U: e.U})
+				EmitChunks(t, &out, events.ArrayTypeUint8, uint64(len(e.Bs)), e.Bs, false, midChar, midElem)
+			}
+		case ev.CustomText:
+			if rapid.Bool().Draw(t, "re.ct") {
+				out = append(out, e)
+			} else {
+				out = append(out, ev.Event{K: ev.CustomBegin, AT: events.ArrayTypeCustomText, U: e.U})
+				EmitChunks(t, &out, events.ArrayTypeString, uint64(len(e.S)), []byte(e.S), true, midChar, midElem)
+			}
+		default:
+			out = append(out, e)
+		}
+	}
+	return out
+}
